@@ -304,3 +304,27 @@ text("c10-localise-once", "C10", UTIL, "            key[:padding_length] + engin
 text("c10-user-from-engine", "C10", USM, "        security_name = credentials.username.encode(\"ascii\")\n        engine_config", "        security_name = security_engine_id\n        engine_config")
 text("c10-authentic-refused", "C10", USM, "    if not is_authentic:\n        raise AuthenticationError(\n            \"Incoming message could not be authenticated!\"\n        )", "    raise AuthenticationError(\n        \"Incoming message could not be authenticated!\"\n    )")
 text("c10-s-ceil-idiom", "C10", UTIL, "        num_words = hash_size // len(password)\n        tmp = (password * (num_words + 1))[:hash_size]", "        num_words = -(-hash_size // len(password))\n        tmp = (password * num_words)[:hash_size]", expect="silent")
+
+# ---------------------------------------------------------------- C11
+text("c11-plaintext-with-priv", "C11", USM, "        scoped_pdu = OctetString(encrypted)\n", "        scoped_pdu = OctetString(bytes(message.scoped_pdu))\n")
+text("c11-raw-password-key", "C11", USM, "    localised_key = localise_key(credentials, security_engine_id)\n    try:\n        encrypted, salt", "    localised_key = credentials.priv.key\n    try:\n        encrypted, salt")
+text("c11-auth-password-for-priv", "C11", UTIL, "    output = hasher(credentials.priv.key, engine_id)", "    output = hasher(credentials.auth.key, engine_id)")
+text("c11-swapped-boots-time", "C11", USM, "            localised_key,\n            security_engine_id,\n            engine_boots,\n            engine_time,\n            bytes(message.scoped_pdu),", "            localised_key,\n            security_engine_id,\n            engine_time,\n            engine_boots,\n            bytes(message.scoped_pdu),")
+text("c11-fallback-plaintext", "C11", USM, "    except Exception as exc:\n        raise EncryptionError(f\"Unable to encrypt message ({exc})\") from exc\n", "    except Exception as exc:\n        LOG_FALLBACK = exc\n        return message\n")
+text("c11-salt-dropped", "C11", USM, "                security_name,\n                b\"\",\n                salt,\n            )", "                security_name,\n                b\"\",\n                b\"\",\n            )")
+text("c11-decrypt-local-time", "C11", USM, "            security_parameters.authoritative_engine_boots,\n            security_parameters.authoritative_engine_time,\n            security_parameters.priv_params,", "            security_parameters.authoritative_engine_boots,\n            0,\n            security_parameters.priv_params,")
+text("c11-decrypt-raw-key", "C11", USM, "        decrypted = priv_method.decrypt_data(\n            localised_key,", "        decrypted = priv_method.decrypt_data(\n            key,")
+text("c11-sha1-uses-md5", "C11", UTIL, "            cast(Callable[[bytes], TDigestable], hashlib.sha1), 20", "            cast(Callable[[bytes], TDigestable], hashlib.md5), 16")
+text("c11-encrypt-only-if-auth", "C11", USM, "    if credentials.priv is None:\n        return replace(", "    if credentials.priv is None or credentials.auth is None:\n        return replace(")
+text("c11-s-rename", "C11", USM, "        encrypted, salt = priv_method.encrypt_data(", "        encrypted, salt = priv_method.encrypt_data(  # noqa", expect="silent")
+
+# ---------------------------------------------------------------- C12
+patch("rev-D11-engine-time", "C12", "b807211-fix__SNMPv3_engine_time_sent_in_requests_advances_with_the_l.diff")
+text("c12-read-before-discovery", "C12", V3, "        if not self.disco:\n            self.disco = await self.security_model.send_discovery_message(\n                self.transport_handler\n            )\n            self.disco_received_at = monotonic()\n        security_engine_id = self.disco.authoritative_engine_id\n", "        security_engine_id = self.disco.authoritative_engine_id if self.disco else b\"\"\n        if not self.disco:\n            self.disco = await self.security_model.send_discovery_message(\n                self.transport_handler\n            )\n            self.disco_received_at = monotonic()\n")
+text("c12-context-engine-not-defaulted", "C12", V3, "        if engine_id == b\"\":\n            engine_id = security_engine_id\n", "        if engine_id is None:\n            engine_id = security_engine_id\n")
+text("c12-elapsed-dropped", "C12", V3, "                self.disco.authoritative_engine_time + elapsed,", "                self.disco.authoritative_engine_time,")
+text("c12-stamp-at-construction", "C12", V3, "            self.disco_received_at = monotonic()\n        security_engine_id", "        if self.disco_received_at is None:\n            self.disco_received_at = 0.0\n        security_engine_id")
+text("c12-report-table-hole", "C12", USM, "        ObjectIdentifier(\"1.3.6.1.6.3.15.1.1.2.0\"): \"Not in time window\",\n", "")
+text("c12-report-no-raise", "C12", USM, "            msg = errors[varbind.oid]\n            raise SnmpError(f\"Error response from remote device: {msg}\")", "            msg = errors[varbind.oid]\n            LOG_MSG = msg")
+text("c12-disco-id-unchecked", "C12", USM, "        validate_response_id(request_id, response_id)\n", "")
+text("c12-validate-skipped-for-plain", "C12", USM, "        message = decrypt_message(message, credentials)\n        validate_usm_message(message)\n        return message", "        message = decrypt_message(message, credentials)\n        if credentials.priv is not None:\n            validate_usm_message(message)\n        return message")
